@@ -133,6 +133,29 @@ func (r *Rng) mutateBytes(b []byte, free bool) ([]byte, string) {
 func genC04(r *Rng, e *Emitter, n int) {
 	saved := wkbcommon.MaxGeometryElements
 	defer func() { wkbcommon.MaxGeometryElements = saved }()
+	// without limits a count the input does not back is still an error. (Only the coordinate count of
+	// a LineString is forged, to a few hundred thousand — the unlimited decoder allocates what a count
+	// claims, and a forged count of rings or members would be multiplied.)
+	for _, c := range codecs {
+		for _, bo := range []binary.ByteOrder{wkb.NDR, wkb.XDR} {
+			valid, err := c.marshal(geom.NewLineStringFlat(geom.XYZM, []float64{1, 2, 3, 4, 5, 6, 7, 8, 9, 10, 11, 12}), bo)
+			if err != nil || len(valid) < 9+96 {
+				continue
+			}
+			for _, cnt := range []uint32{300001, 1<<20 + 1, 262145} {
+				for _, cut := range []int{0, 4, 8, 33, 96} {
+					b := append([]byte{}, valid[:len(valid)-cut]...)
+					if bo == binary.ByteOrder(wkb.NDR) {
+						binary.LittleEndian.PutUint32(b[5:], cnt)
+					} else {
+						binary.BigEndian.PutUint32(b[5:], cnt)
+					}
+					e.tally("mutation=forged-coordinate-count-unlimited")
+					c04Run(e, c, [4]int{0, -1, -1, -1}, b)
+				}
+			}
+		}
+	}
 	limChoices := []int{-1, 0, 1, 3, 100}
 	for i := 0; i < n; i++ {
 		t := r.wkbTree(3, xyzmLayouts[r.Intn(4)])
